@@ -520,7 +520,7 @@ def r1_name(rep):
             ok = skeleton == "{}#{}" and args == ["$resolve.name_world_key($key)", "$func.name"]
     rep.ob("R17.1", "is_async: with an interface the name under test is \"{name_world_key(key)}#{func.name}\"", ok,
            detail or "Some(key) arm does not build the name with one format!", fn.loc(some.node if some else None))
-    nb = render(none.body, roles) if none is not None and "_" not in none.heads or none is not None else None
+    nb = render(none.body, roles) if none is not None else None
     rep.ob("R17.1", "is_async: without an interface the name under test is func.name",
            nb in ("$func.name.clone()", "$func.name.to_string()", "$func.name.to_owned()"), f"None arm yields `{nb}`",
            fn.loc(none.node if none else None))
@@ -803,6 +803,18 @@ def region_check(rep, f, inst, sws, want_true, want_false, what):
     return tr, fr
 
 
+def abi_call_flag(rep, f, inst, tr, fr, pred):
+    """the `async_` flag handed to abi::call is the answer itself, or a constant agreeing with the edge it is on."""
+    for x in f.calls("abi::call"):
+        if not x.arg_types or x.arg_types[-1] != "bool":
+            continue
+        o = f.origin(x.args[-1])
+        ok = pred(o) or (o.get("kind") == "const" and ((o.get("v") == 0 and x.bb in fr and x.bb not in tr) or
+                                                        (o.get("v") == 1 and x.bb in tr and x.bb not in fr)))
+        rep.ob("R17.5", f"{inst}: abi::call is told the same async-ness as the selected variant", ok,
+               f"async flag is {o.get('kind')} {o.get('v', '')}", f.loc(x.bb))
+
+
 TUPLE_FNS = [
     # crate, self type, fn, source file, (async variant, async prefix), (sync variant, sync prefix)
     ("wit_bindgen_c", "InterfaceGenerator", "import", C_LIB, ("GuestImportAsync", "[async-lower]"), ("GuestImport", "")),
@@ -839,6 +851,18 @@ def bound_from_call(fn, name, method):
     """is `name` introduced by exactly one `let name = <expr containing .method(..)>` in fn?"""
     ds = [(i, st) for n, i, st in synq.bindings(fn.body) if n == name]
     return len(ds) == 1 and ds[0][0] is not None and bool(synq.method_calls(ds[0][0], method))
+
+
+def alias_root(fn, name, depth=6):
+    """follow `let name = other_name;` renamings back to the first binding."""
+    while depth > 0 and name is not None:
+        ds = [i for n, i, st in synq.bindings(fn.body) if n == name and st["pat"].get("k") == "p_ident"]
+        if len(ds) == 1 and ds[0] is not None and ds[0].get("k") == "path" and "::" not in ds[0]["path"]:
+            name = ds[0]["path"]
+            depth -= 1
+            continue
+        break
+    return name
 
 
 def variant_tuple(e):
@@ -885,17 +909,18 @@ def r5_tuples(rep):
         vname = pname = None
         if len(lets) == 1 and len(lets[0]["pat"]["elems"]) == 2 and all(x.get("k") == "p_ident" for x in lets[0]["pat"]["elems"]):
             vname, pname = [x["name"] for x in lets[0]["pat"]["elems"]]
-        sigs = [render(m["args"][0]) for m in synq.method_calls(fn.body, "wasm_signature")]
+        sigs = [alias_root(fn, render(m["args"][0])) for m in synq.method_calls(fn.body, "wasm_signature")]
         rep.ob("R17.5", f"{inst}: the wasm signature is computed for the selected variant",
                vname is not None and bool(sigs) and all(s == vname for s in sigs), f"wasm_signature({sigs})", fn.loc(n))
-        calls = [render(c["args"][1]) for c in synq.fn_calls(fn.body, "call") if c["func"]["path"].endswith("abi::call")
-                 and len(c["args"]) >= 2]
+        calls = [alias_root(fn, render(c["args"][1])) for c in synq.fn_calls(fn.body, "call")
+                 if c["func"]["path"].endswith("abi::call") and len(c["args"]) >= 2]
         rep.ob("R17.5", f"{inst}: abi::call lifts / lowers with the selected variant",
                all(s == vname for s in calls), f"abi::call(.., {calls}, ..)", fn.loc(n), nontrivial=bool(calls))
         uses = []
         for x in synq.fmts(fn.body):
             for kind, key, ex, off in x.hole_exprs():
-                if (kind == "name" and key == pname and ex is None) or (ex is not None and render(ex) == pname):
+                if (kind == "name" and ex is None and alias_root(fn, key) == pname) or \
+                        (ex is not None and ex.get("k") == "path" and alias_root(fn, ex["path"]) == pname):
                     end = x.template.index("}", off) + 1
                     uses.append((x.template[max(0, off - 10):off], x.template[end:end + 1]))
         rep.ob("R17.5", f"{inst}: the selected prefix is printed immediately before the function's wasm name",
@@ -908,6 +933,7 @@ def r5_tuples(rep):
         sws = answer_switches(f, is_answer_call)
         rep.floor("R17.5", f"{inst}: switches on the answer of is_async", len(sws), 1)
         tr, fr = region_check(rep, f, inst, sws, [apair[0]], [spair[0]], "is_async(..)")
+        abi_call_flag(rep, f, inst, tr, fr, is_answer_call)
         strs = str_consts(f)
         ab = [b for b, s in strs if s == apair[1]]
         rep.ob("R17.5", f"{inst}: \"{apair[1]}\" is used only on the true edge of the answer",
@@ -1021,7 +1047,9 @@ def r5_rust(rep):
         bi = [i for i in range(1, mf.argc + 1) if mf.locals[i] == "bool"]
         sws = answer_switches(mf, lambda o: o.get("kind") == "arg" and [o.get("n")] == bi and not o.get("proj"))
         rep.floor("R17.5", f"rust::{nm}: switches on the async_ parameter", len(sws), 1)
-        region_check(rep, mf, f"rust::{nm} (MIR)", sws, ["GuestExportAsync"], ["GuestExport"], "async_")
+        tr_, fr_ = region_check(rep, mf, f"rust::{nm} (MIR)", sws, ["GuestExportAsync"], ["GuestExport"], "async_")
+        abi_call_flag(rep, mf, f"rust::{nm} (MIR)", tr_, fr_,
+                      lambda o, bi=bi: o.get("kind") == "arg" and [o.get("n")] == bi and not o.get("proj"))
     g = synq.find_fn(RUST_IF, "generate_raw_cabi_export", self_ty="InterfaceGenerator")
     bp = bool_param(g)
 
@@ -1194,10 +1222,9 @@ def r5_moonbit(rep):
         sigs = [render(x["args"][0]) for x in synq.method_calls(fn.body, "wasm_signature")]
         rep.ob("R17.5", f"moonbit::InterfaceGenerator::{nm}: wasm signature computed for the plan's variant",
                len(vnames) == 1 and bool(sigs) and all(s == vnames[0] for s in sigs), f"wasm_signature({sigs})", fn.loc())
+        tagword = "WasmImport::Func" if nm == "import" else "WasmExportKind::Normal"
         nms = [render(x["args"][0]) for x in synq.method_calls(fn.body, namer)
-               if any(n_.get("k") == "path" and n_["path"].endswith("::Func") or n_.get("k") == "struct" and n_["path"].endswith("::Func")
-                      for n_ in synq.walk(x["args"][1]))
-               and "Normal" in render(x["args"][1]) + "Normal" * (nm == "import")]
+               if len(x["args"]) == 2 and tagword in render(x["args"][1])]
         rep.ob("R17.5", f"moonbit::InterfaceGenerator::{nm}: the function's wasm name is mangled with the plan's ABI",
                bool(nms) and all(s == f"{pl}.mangling_and_abi()" for s in nms), f"{namer}({nms}, ..)", fn.loc())
         calls = [c_ for c_ in synq.fn_calls(fn.body, "call") if c_["func"]["path"].endswith("abi::call")]
@@ -1256,4 +1283,350 @@ def r5_constructors(rep):
     rep.floor("R17.5", "constructions of asynchronous AbiVariants in the backends", n, 7)
 
 
-def r6_parse_display(rep): pass
+
+# ================================================================================================================
+# R17.6  Async::parse and Display agree with the documented grammar (table evaluation on the syntax tree)
+# ================================================================================================================
+class Unsupported(Exception):
+    pass
+
+
+class _Return(Exception):
+    def __init__(self, v):
+        self.v = v
+
+
+NONE = ("None",)
+
+
+def _fmt_text(x, env, ev):
+    """text produced by a format-like macro `x` (synq.Fmt) under env."""
+    if x.template is None:
+        raise Unsupported("format macro without a literal template")
+    out = []
+    pos = 0
+    t = x.template
+    holes = {off: (kind, key, ex) for kind, key, ex, off in x.hole_exprs()}
+    i = 0
+    while i < len(t):
+        if t.startswith("{{", i) or t.startswith("}}", i):
+            out.append(t[i])
+            i += 2
+            continue
+        if t[i] == "{":
+            j = t.index("}", i)
+            spec = t[i + 1:j]
+            if ":" in spec:
+                raise Unsupported(f"format spec `{spec}`")
+            kind, key, ex = holes[i]
+            v = env[key] if ex is None else ev(ex, env)
+            out.append(_display(v, ev))
+            i = j + 1
+            continue
+        out.append(t[i])
+        i += 1
+    return "".join(out)
+
+
+def _display(v, ev):
+    if isinstance(v, str):
+        return v
+    if isinstance(v, bool):
+        return "true" if v else "false"
+    if isinstance(v, tuple) and v and v[0] in ("V", "S"):
+        return display_value(v)
+    raise Unsupported(f"Display of {v!r}")
+
+
+def display_value(v):
+    """evaluate `impl Display for <type of v>` from async_.rs on the value."""
+    ty = "AsyncFilter" if v[0] == "V" else v[1]
+    fn = synq.find_fn(ASYNC_RS, "fmt", self_ty=ty, trait="Display")
+    out = []
+    fname = [p["pat"]["name"] for p in fn.node["sig"]["params"] if not p.get("self")][0]
+    env = {"self": v, fname: ("FMT", out)}
+    try:
+        _eval(fn.body, env)
+    except _Return:
+        pass
+    return "".join(out)
+
+
+def _pat(p, v, env):
+    k = p.get("k")
+    if k == "p_wild":
+        return True
+    if k == "p_ref":
+        return _pat(p["pat"], v, env)
+    if k == "p_or":
+        return any(_pat(c, v, env) for c in p["cases"])
+    if k == "p_lit":
+        l = p["lit"]
+        return l.get("v") == v
+    if k == "p_ident":
+        if p["name"] == "None":
+            return v == NONE
+        if p["name"][:1].isupper():
+            return isinstance(v, tuple) and v[:2] == ("V", p["name"]) and not v[2]
+        if p.get("sub") and not _pat(p["sub"], v, env):
+            return False
+        env[p["name"]] = v
+        return True
+    if k == "p_path":
+        nm = p["path"].split("::")[-1]
+        if nm == "None":
+            return v == NONE
+        return isinstance(v, tuple) and v[:2] == ("V", nm) and not v[2]
+    if k == "p_tuple":
+        return isinstance(v, tuple) and v[:1] == ("T",) and len(v) - 1 == len(p["elems"]) and \
+            all(_pat(e, x, env) for e, x in zip(p["elems"], v[1:]))
+    if k == "p_tuple_struct":
+        nm = p["path"].split("::")[-1]
+        if nm == "Some":
+            return isinstance(v, tuple) and v[:1] == ("Some",) and len(p["elems"]) == 1 and _pat(p["elems"][0], v[1], env)
+        return isinstance(v, tuple) and v[:2] == ("V", nm) and len(v[2]) == len(p["elems"]) and \
+            all(_pat(e, x, env) for e, x in zip(p["elems"], v[2]))
+    raise Unsupported(f"pattern kind {k}")
+
+
+IDENTITY_METHODS = {"to_string", "to_owned", "into", "clone", "as_str", "as_ref", "borrow", "trim_matches_none"}
+
+
+def _eval(e, env):
+    k = e.get("k")
+    if k == "block":
+        env = dict(env)
+        val = ("T",)
+        st = e.get("stmts") or []
+        for i, s in enumerate(st):
+            sk = s.get("k")
+            if sk == "let":
+                if s.get("init") is None:
+                    raise Unsupported("let without initialiser")
+                v = _eval(s["init"], env)
+                if not _pat(s["pat"], v, env):
+                    raise Unsupported("refutable let")
+                val = ("T",)
+            elif sk == "expr_stmt":
+                v = _eval(s["e"], env)
+                val = v if (i == len(st) - 1 and not s.get("semi")) else ("T",)
+            else:
+                raise Unsupported(f"statement {sk}")
+        return val
+    if k == "path":
+        p = e["path"]
+        if p in env:
+            return env[p]
+        if p == "None":
+            return NONE
+        if "::" in p or p[:1].isupper():
+            return ("V", p.split("::")[-1], [])
+        raise Unsupported(f"unbound name {p}")
+    if k in ("str", "char", "bool", "int"):
+        return e["v"]
+    if k == "tuple":
+        return ("T",) + tuple(_eval(x, env) for x in e["elems"])
+    if k == "ref":
+        return _eval(e["e"], env)
+    if k == "unary":
+        v = _eval(e["e"], env)
+        if e["op"] == "!":
+            if not isinstance(v, bool):
+                raise Unsupported("! on a non-bool")
+            return not v
+        if e["op"] == "*":
+            return v
+        raise Unsupported(f"unary {e['op']}")
+    if k == "binary":
+        a, b = _eval(e["l"], env), _eval(e["r"], env)
+        if e["op"] == "==":
+            return a == b
+        if e["op"] == "!=":
+            return a != b
+        if e["op"] == "&&":
+            return a and b
+        if e["op"] == "||":
+            return a or b
+        raise Unsupported(f"binary {e['op']}")
+    if k == "field":
+        v = _eval(e["base"], env)
+        if isinstance(v, tuple) and v[:1] == ("S",):
+            return v[2][e["member"]]
+        if isinstance(v, tuple) and v[:1] == ("T",) and str(e["member"]).isdigit():
+            return v[1 + int(e["member"])]
+        raise Unsupported("field access")
+    if k == "struct":
+        return ("S", e["path"].split("::")[-1], {f["name"]: _eval(f["e"], env) for f in e["fields"]})
+    if k == "call":
+        if e["func"].get("k") != "path":
+            raise Unsupported("indirect call")
+        p = e["func"]["path"]
+        args = [_eval(a, env) for a in e["args"]]
+        nm = p.split("::")[-1]
+        if p == "Some":
+            return ("Some", args[0])
+        if p in ("Ok", "Err"):
+            return (p, args[0])
+        if p in ("String::from", "str::to_string", "ToString::to_string", "String::from_str"):
+            return args[0]
+        if "::" in p and nm[:1].isupper():
+            return ("V", nm, args)
+        raise Unsupported(f"call of {p}")
+    if k == "mcall":
+        r = _eval(e["recv"], env)
+        m = e["method"]
+        args = [_eval(a, env) for a in e["args"]]
+        if m == "strip_prefix" and isinstance(r, str) and isinstance(args[0], str):
+            return ("Some", r[len(args[0]):]) if r.startswith(args[0]) else NONE
+        if m == "strip_suffix" and isinstance(r, str) and isinstance(args[0], str):
+            return ("Some", r[:len(r) - len(args[0])]) if r.endswith(args[0]) else NONE
+        if m == "starts_with" and isinstance(r, str) and isinstance(args[0], str):
+            return r.startswith(args[0])
+        if m in IDENTITY_METHODS and not args:
+            return r
+        if m == "fmt" and isinstance(r, tuple) and r[:1] in (("V",), ("S",)) and len(args) == 1 and args[0][:1] == ("FMT",):
+            args[0][1].append(display_value(r))
+            return ("Ok", ("T",))
+        if m == "write_str" and isinstance(r, tuple) and r[:1] == ("FMT",):
+            r[1].append(args[0])
+            return ("Ok", ("T",))
+        if m == "is_some":
+            return r != NONE
+        if m == "is_none":
+            return r == NONE
+        raise Unsupported(f"method {m}")
+    if k == "macro":
+        nm = e["name"].split("::")[-1]
+        if nm in ("write", "writeln") and e.get("args"):
+            x = synq.Fmt(e)
+            dest = _eval(x.dest, env)
+            if dest[:1] != ("FMT",):
+                raise Unsupported("write! to something else")
+            dest[1].append(_fmt_text(x, env, _eval) + ("\n" if nm == "writeln" else ""))
+            return ("Ok", ("T",))
+        if nm == "format" and e.get("args"):
+            return _fmt_text(synq.Fmt(e), env, _eval)
+        if nm == "matches":
+            v = _eval(e["expr"], env)
+            return _pat(e["pat"], v, dict(env))
+        raise Unsupported(f"macro {nm}!")
+    if k == "try":
+        v = _eval(e["e"], env)
+        if isinstance(v, tuple) and v[:1] == ("Ok",):
+            return v[1]
+        if isinstance(v, tuple) and v[:1] == ("Some",):
+            return v[1]
+        raise _Return(v)
+    if k == "return":
+        raise _Return(_eval(e["e"], env) if e.get("e") else ("T",))
+    if k == "if":
+        c = e["cond"]
+        env2 = dict(env)
+        if c.get("k") == "let_cond":
+            ok = _pat(c["pat"], _eval(c["e"], env), env2)
+        else:
+            ok = _eval(c, env)
+            if not isinstance(ok, bool):
+                raise Unsupported("non-bool condition")
+        if ok:
+            return _eval(e["then"], env2)
+        if e.get("else") is not None:
+            return _eval(e["else"], env)
+        return ("T",)
+    if k == "match":
+        v = _eval(e["scrut"], env)
+        for a in e["arms"]:
+            env2 = dict(env)
+            if _pat(a["pat"], v, env2):
+                if a.get("guard") is not None and not _eval(a["guard"], env2):
+                    continue
+                return _eval(a["body"], env2)
+        raise Unsupported("no arm matched")
+    if k == "paren":
+        return _eval(e["e"], env)
+    raise Unsupported(f"expression kind {k}")
+
+
+def ref_parse(s):
+    """The documented grammar (doc comment of AsyncFilterSet): [-](all | import:NAME | export:NAME | NAME)."""
+    enabled = True
+    if s.startswith("-"):
+        enabled, s = False, s[1:]
+    if s == "all":
+        flt = ("V", "All", [])
+    elif s.startswith("import:"):
+        flt = ("V", "Import", [s[len("import:"):]])
+    elif s.startswith("export:"):
+        flt = ("V", "Export", [s[len("export:"):]])
+    else:
+        flt = ("V", "Function", [s])
+    return ("S", "Async", {"enabled": enabled, "filter": flt})
+
+
+SAMPLES = ["all", "-all", "foo:bar/baz#method", "-foo:bar/baz#method", "import:foo:bar/baz#method",
+           "-import:foo:bar/baz#method", "export:foo:bar/baz#method", "-export:foo:bar/baz#method",
+           "run", "-run", "import:run", "export:run", "-import:run", "-export:run",
+           "allx", "import", "export", "import:all", "export:-x", "a-b"]
+
+
+def show(v):
+    if isinstance(v, tuple) and v[:1] == ("S",):
+        return v[1] + " { " + ", ".join(f"{k}: {show(x)}" for k, x in v[2].items()) + " }"
+    if isinstance(v, tuple) and v[:1] == ("V",):
+        return v[1] + ("(" + ", ".join(show(x) for x in v[2]) + ")" if v[2] else "")
+    return repr(v)
+
+
+def r6_parse_display(rep):
+    rep.saw(file=ASYNC_RS)
+    fn = synq.find_fn(ASYNC_RS, "parse", self_ty="Async")
+    pname = [p["pat"]["name"] for p in fn.node["sig"]["params"] if not p.get("self")]
+    if len(pname) != 1:
+        raise AnchorMissing("Async::parse takes one string")
+    for s in SAMPLES:
+        want = ref_parse(s)
+
+        def one(s=s, want=want):
+            try:
+                got = _eval(fn.body, {pname[0]: s})
+            except _Return as r:
+                got = r.v
+            rep.ob("R17.6", f"Async::parse({s!r}) = {show(want)}", got == want, f"evaluates to {show(got)}", fn.loc())
+            if got == want:
+                txt = display_value(got)
+                rep.ob("R17.6", f"Display prints the parsed directive {s!r} back unchanged", txt == s, f"prints {txt!r}",
+                       synq.find_fn(ASYNC_RS, "fmt", self_ty="Async", trait="Display").loc())
+        rep.guard("R17.6", f"evaluate parse / Display on {s!r}", one)
+    rep.floor("R17.6", "sample directives evaluated", len(SAMPLES), 20)
+    # Display tables directly (each variant, both polarities)
+    for flt, txt in ((("V", "All", []), "all"), (("V", "Function", ["n"]), "n"), (("V", "Import", ["n"]), "import:n"),
+                     (("V", "Export", ["n"]), "export:n")):
+        for en in (True, False):
+            v = ("S", "Async", {"enabled": en, "filter": flt})
+            want = ("" if en else "-") + txt
+
+            def one(v=v, want=want):
+                got = display_value(v)
+                rep.ob("R17.6", f"Display of {show(v)} is {want!r}", got == want, f"prints {got!r}",
+                       synq.find_fn(ASYNC_RS, "fmt", self_ty="AsyncFilter", trait="Display").loc())
+            rep.guard("R17.6", f"Display of {show(v)}", one)
+    # one parser: every way into the set goes through Async::parse; `all(b)` builds Async { enabled: b, All }
+    c = ws("wit_bindgen_core")
+    push = c.method("AsyncFilterSet", "push")
+    rep.saw(push)
+    rep.ob("R17.6", "AsyncFilterSet::push parses its directive with Async::parse", len(push.calls("Async::parse")) == 1 and
+           len(push.calls("Vec::push")) == 1, "", push.loc())
+    pa = synq.find_fn(ASYNC_RS, "parse_async", required=False)
+    if pa is not None:
+        rep.ob("R17.6", "the command-line value parser (parse_async) is Async::parse",
+               render(block_tail(pa.body)) in ("Ok(Async::parse(s))",) or bool(synq.fn_calls(pa.body, "Async::parse")),
+               f"`{render(block_tail(pa.body))}`", pa.loc())
+    al = synq.find_fn(ASYNC_RS, "all", self_ty="AsyncFilterSet")
+    bp = bool_param(al)
+    lits = [n for n in synq.walk(al.body) if n.get("k") == "struct" and n["path"].split("::")[-1] == "Async"]
+    ok = len(lits) == 1
+    if ok:
+        fl = {x["name"]: render(x["e"]) for x in lits[0]["fields"]}
+        ok = fl.get("enabled") == bp and fl.get("filter", "").endswith("AsyncFilter::All")
+    rep.ob("R17.6", "AsyncFilterSet::all(b) is the single directive Async { enabled: b, filter: All }", ok,
+           f"{[render(x) for x in lits]}", al.loc())
